@@ -252,6 +252,27 @@ def monitorE2e (cfg : E2eCfg) (st : E2eState) (op : SOp) (seg : List String) : O
           -- secrets never in the clear
           (if raws.any (fun r => (secretsOf op).any fun s => hexContains r.bytes s) then some "secret-visible-on-the-wire" else none)
   else if cfg.prop = "C11" then none
+  else if cfg.prop = "C13" then
+    let stTok := ((seg.find? fun t => t.startsWith "st:").getD "").splitOn ":"
+    let conn := stTok.getD 1 "0" = "1"
+    let generated := gen.map fun (c, t) => s!"{c}:{hexOfBytes t}"
+    let retItems : List String := match ret.splitOn ":" with
+      | "ret" :: "replies" :: _ :: rest => splitComma (":".intercalate rest)
+      | _ => []
+    if op.name = "connect" then
+      (if returned && retItems.head? != generated.head? then some "first-reply-is-not-the-new-greeting"
+       else if returned && !conn && (gen.all fun (c, _) => c != 421) then some "not-connected-after-connect"
+       else
+         -- a new connection is plaintext until AUTH TLS is negotiated again: its first bytes are not TLS records
+         (match (rawSends seg).find? (fun r => r.fd == st.ctlFd) with
+          | some r => if (tlsRecords r.bytes).isSome then some "new-connection-does-not-start-in-plaintext" else none
+          | none => none))
+    else if op.name = "disc" then
+      (if conn then some "connected-after-disconnect"
+       else if op.args.getD 0 "" != "1" && seg.any (fun t => t.startsWith "o0:q:") then some "nongraceful-disconnect-sent-a-command"
+       else if (stTok.getD 2 "0") != "0" then some "socket-held-after-disconnect" else none)
+    else if returned && retItems.any (·.startsWith "421:") && conn then some "connected-after-421"
+    else none
   else if cfg.prop = "C18" && cfg.tls then
     if op.name = "connect" then none
     else
